@@ -102,6 +102,39 @@ theorem offsets_roundtrip (pre : List UInt8) (es : List Entry) (ck : Bool) (hf :
   intro e _
   cases ck <;> simp
 
+/-- **checksum column** (the frame log of the writer, `Seekable.expectedChecksums`, tied on every run by `cks`): one checksum per frame of the cut, each a
+32-bit value (it fits the table's field, `Fits`), and without the checksum flag every one is 0.  The column is a function of the content and the frame cut only:
+no call history (input chunking, output window sizes, how much of an offered chunk the inner compressor took) appears in it. -/
+theorem checksum_column (x : Bytes) (ck : Bool) (off : Nat) (ds : List Nat) :
+    (expectedChecksums x ck off ds).length = ds.length ∧
+    (∀ c ∈ expectedChecksums x ck off ds, c < 4294967296) ∧
+    (ck = false → ∀ c ∈ expectedChecksums x ck off ds, c = 0) := by
+  induction ds generalizing off with
+  | nil => simp [expectedChecksums]
+  | cons d rest ih =>
+    obtain ⟨h1, h2, h3⟩ := ih (off + d)
+    have hc : frameChecksum x off d ck < 4294967296 := by
+      unfold frameChecksum; split
+      · exact Nat.mod_lt _ (by decide)
+      · decide
+    refine ⟨by simp [expectedChecksums, h1], ?_, ?_⟩
+    · intro c hcm
+      simp only [expectedChecksums, List.mem_cons] at hcm
+      rcases hcm with rfl | hcm
+      · exact hc
+      · exact h2 c hcm
+    · intro hk c hcm
+      simp only [expectedChecksums, List.mem_cons] at hcm
+      rcases hcm with rfl | hcm
+      · simp [frameChecksum, hk]
+      · exact h3 hk c hcm
+
+/-- a frame's checksum is taken over exactly its own `len` bytes: the next frame's starts where this one's ends -/
+theorem checksum_column_cons (x : Bytes) (ck : Bool) (off d : Nat) (rest : List Nat) :
+    expectedChecksums x ck off (d :: rest) = frameChecksum x off d ck :: expectedChecksums x ck (off + d) rest := rfl
+
+example : expectedChecksums (ByteArray.mk #[1, 2, 3]) false 0 [1, 2] = [0, 0] := by decide
+
 example : Fits ⟨5, 10, 77⟩ ∧ norm false ⟨5, 10, 77⟩ = ⟨5, 10, 0⟩ := by
   unfold Fits; decide
 
